@@ -139,6 +139,12 @@ func (c *clientFile) xattrWalkRead(attr string) ([]byte, error) {
 	if rxattrwalk.Size == 0 {
 		return []byte{}, nil
 	}
+	// The size comes from the wire; no attribute value is larger than the
+	// largest message, and the buffer must not be sized by an arbitrary
+	// 64-bit number.
+	if rxattrwalk.Size > uint64(maximumLength) {
+		return nil, linux.EIO
+	}
 	buf := make([]byte, rxattrwalk.Size)
 	n, err := xattrFile.ReadAt(buf, 0)
 	if err != nil && !errors.Is(err, io.EOF) {
